@@ -37,6 +37,18 @@ func (r *evRec) add(f string, a ...any) {
 	r.mu.Unlock()
 }
 
+// addIf records the event if the (non-blocking) action succeeded, atomically with it: nothing the action
+// causes can be recorded before the event itself
+func (r *evRec) addIf(act func() bool, f string, a ...any) {
+	r.mu.Lock()
+	if act() {
+		r.evs = append(r.evs, fmt.Sprintf(f, a...))
+		r.last = time.Now()
+		r.ts = append(r.ts, r.last.Sub(r.t0))
+	}
+	r.mu.Unlock()
+}
+
 func (r *evRec) snapshot() ([]string, time.Time) {
 	r.mu.Lock()
 	defer r.mu.Unlock()
